@@ -2,11 +2,13 @@ package pxw
 
 import (
 	"context"
-	"runtime/debug"
+	"errors"
 	"fmt"
 	"net"
+	"runtime/debug"
 	"strings"
 	"sync"
+	"sync/atomic"
 	"testing"
 	"testing/cryptotest"
 	"testing/synctest"
@@ -42,10 +44,10 @@ type Stmt struct {
 	ResultFormats []int16
 	Describe      bool // send Describe(portal) in the extended protocol
 	Name          string
-	ParamOIDs     []uint32 // parameter types declared in Parse
+	ParamOIDs     []uint32      // parameter types declared in Parse
 	Args          []interface{} // MySQL: arguments of a prepared statement (int64, string, []byte, nil)
 	NoParse       bool          // PostgreSQL: execute the statement prepared earlier under Name (no Parse message)
-	Tag           string   // harness bookkeeping
+	Tag           string        // harness bookkeeping
 }
 
 // StmtResult is what the client saw for one statement.
@@ -64,23 +66,24 @@ type StmtResult struct {
 // PgWorld is one simulated deployment: keystore, token store, proxy settings,
 // database.
 type PgWorld struct {
-	W        *kernel.World
-	DB       *PgDB
-	Disk     *ksw.Disk
-	KS       *ksw.Handle
-	Factory  base.ProxyFactory
-	Schema   config.TableSchemaStore
-	Censor   *acracensor.AcraCensor
-	Poison   *poison.CallbackStorage
-	Tokenizer tokenCommon.Pseudoanonymizer
-	Panics   []string
-	Stacks   []string
-	runRef   *SessionRunRef
-	delivered map[string]int
-	chunkMod int // 0: whole, 1: small chunks, 2: byte by byte
-	maxSteps int
-	mysql    bool
-	ksWorld  *kernel.World
+	W          *kernel.World
+	DB         *PgDB
+	Disk       *ksw.Disk
+	KS         *ksw.Handle
+	Factory    base.ProxyFactory
+	Schema     config.TableSchemaStore
+	Censor     *acracensor.AcraCensor
+	Poison     *poison.CallbackStorage
+	Tokenizer  tokenCommon.Pseudoanonymizer
+	Panics     []string
+	Stacks     []string
+	runRef     *SessionRunRef
+	delivered  map[string]int
+	chunkMod   int // 0: whole, 1: small chunks, 2: byte by byte
+	maxSteps   int
+	mysql      bool
+	ksWorld    *kernel.World
+	tokenFault *faultyTokenStorage
 	// WriteYield: the proxy's writes become scheduling points (see stream.yield)
 	WriteYield bool
 }
@@ -91,6 +94,41 @@ const keyFaultOp = 7777
 func (pw *PgWorld) KeyFaultFired() bool {
 	return pw.ksWorld != nil && pw.ksWorld.Res.Fired[kernel.FErr] > 0
 }
+
+// faultyTokenStorage fails one call into the token storage with an I/O error.
+type faultyTokenStorage struct {
+	tokenCommon.TokenStorage
+	calls  atomic.Int64
+	failAt int64
+	fired  atomic.Bool
+}
+
+var errTokenStoreIO = errors.New("token storage: connection refused")
+
+func (f *faultyTokenStorage) gate() error {
+	if f.calls.Add(1) == f.failAt {
+		f.fired.Store(true)
+		return errTokenStoreIO
+	}
+	return nil
+}
+
+func (f *faultyTokenStorage) Save(id []byte, ctx tokenCommon.TokenContext, data []byte) error {
+	if err := f.gate(); err != nil {
+		return err
+	}
+	return f.TokenStorage.Save(id, ctx, data)
+}
+
+func (f *faultyTokenStorage) Get(id []byte, ctx tokenCommon.TokenContext) ([]byte, error) {
+	if err := f.gate(); err != nil {
+		return nil, err
+	}
+	return f.TokenStorage.Get(id, ctx)
+}
+
+// TokenFaultFired tells whether the token storage fault was injected.
+func (pw *PgWorld) TokenFaultFired() bool { return pw.tokenFault != nil && pw.tokenFault.fired.Load() }
 
 // PgWorldConfig configures NewPgWorld.
 type PgWorldConfig struct {
@@ -105,6 +143,8 @@ type PgWorldConfig struct {
 	// MySQL: the deployment is AcraServer in MySQL mode in front of the simulated MySQL server.
 	MySQL          bool
 	MyDeprecateEOF bool
+	// TokenFaultNth > 0: the Nth call into the token storage fails with an I/O error
+	TokenFaultNth int
 	// KeystoreV2: the key store is keystore v2 (key rings on the simulated back end) instead of v1
 	KeystoreV2 bool
 	// StrictParser: Acra's SQL parser in strict mode (a statement it cannot parse is an error, not a pass-through)
@@ -112,12 +152,12 @@ type PgWorldConfig struct {
 }
 
 type session struct {
-	ctx      context.Context
-	client   net.Conn
-	db       net.Conn
-	state    interface{}
-	mu       sync.Mutex
-	data     map[string]interface{}
+	ctx    context.Context
+	client net.Conn
+	db     net.Conn
+	state  interface{}
+	mu     sync.Mutex
+	data   map[string]interface{}
 }
 
 func (s *session) Context() context.Context       { return s.ctx }
@@ -197,9 +237,16 @@ func NewPgWorld(w *kernel.World, rng *kernel.RNG, cfg PgWorldConfig) (*PgWorld, 
 		}
 	}
 	var censor acracensor.AcraCensorInterface = pw.Censor
-	store, err := tokenStorage.NewMemoryTokenStorage()
+	memStore, err := tokenStorage.NewMemoryTokenStorage()
 	if err != nil {
 		return nil, err
+	}
+	var store tokenCommon.TokenStorage = memStore
+	var faultyStore *faultyTokenStorage
+	if cfg.TokenFaultNth > 0 {
+		faultyStore = &faultyTokenStorage{TokenStorage: store, failAt: int64(cfg.TokenFaultNth)}
+		store = faultyStore
+		pw.tokenFault = faultyStore
 	}
 	enc, err := tokenStorage.NewSCellEncryptor(h.KS)
 	if err != nil {
